@@ -11,4 +11,7 @@ def contracts():
     for L in G.LAYOUTS:
         out.append(N.BY_LAYOUT[L.tag]["logpdf_flat"])
         out.append(N.BY_LAYOUT[L.tag]["to_derivative"])
+    from contracts import lemmas
+
+    out.append(lemmas.triangular_contract())
     return out
